@@ -258,8 +258,32 @@ def body_deep(ctx, nk):
               'asked again after the dataset was edited in place, the answer is about the dataset as it is now')
 
 
+def body_wide(ctx, ny, nx, nk):
+    """Many columns (a leading spatial dimension longer than any block size) and a staircase sea floor: every column
+    gives the value of its own deepest layer that holds data."""
+    from emsarray.operations import depth as depth_ops
+    order = int(ctx.int('deep_first', 0, 1))
+    wet = (numpy.arange(ny)[:, None] * 3 + numpy.arange(nx)[None, :]) % (nk + 1)        # 0..nk wet layers, every count occurs
+    vals = numpy.full((nk, ny, nx), numpy.nan)
+    for k in range(nk):
+        vals[k][wet > k] = 100.0 * k + (numpy.arange(ny)[:, None] % 7 + numpy.arange(nx)[None, :] / 16.0)[wet > k]
+    z = numpy.arange(nk, dtype=float) * 2.0 + 1.0
+    want = numpy.where(wet > 0, 100.0 * (wet - 1) + (numpy.arange(ny)[:, None] % 7 + numpy.arange(nx)[None, :] / 16.0), numpy.nan)
+    if order:
+        z, vals = z[::-1].copy(), vals[::-1].copy()
+    ds = xarray.Dataset({'temp': (('k', 'y', 'x'), vals), 'salt': (('y', 'x', 'k'), numpy.moveaxis(vals, 0, -1) + 0.25)},
+                        coords={'zc': (('k',), z, {'positive': 'down'})})
+    out = depth_ops.ocean_floor(ds, ['zc'])
+    ctx.check(tuple(out['temp'].dims) == ('y', 'x') and bool(numpy.array_equal(out['temp'].values, want, equal_nan=True)),
+              'temp: deepest layer that holds data, at every location and time')
+    ctx.check(tuple(out['salt'].dims) == ('y', 'x') and bool(numpy.array_equal(out['salt'].values, want + 0.25, equal_nan=True)),
+              'salt: deepest layer that holds data')
+
+
 def cases(tier):
     q = tier == 'quick'
+    for ny, nx, nk in ((257, 2, 3), (300, 5, 9), (3, 3, 9), (2, 260, 17)):
+        yield Case(f'wide:{ny}x{nx}:nk{nk}', body_wide, dict(ny=ny, nx=nx, nk=nk), max_paths=4)
     for nk in ((160,) if q else (160, 300, 33000)):
         yield Case(f'deep:nk{nk}', body_deep, dict(nk=nk), max_paths=4)
     combos = []
